@@ -25,6 +25,7 @@ func init() {
 
 	Register(&Prop{
 		ID: "C20", Bubble: true, Run: runC20, QuickRuns: 1200,
+		ExpectedProbes: []string{"start_or_stop_while_live", "gauge_polled", "decisions_overlapped"},
 		Rule: "one run = (a) a recording metric registry under a strategy (simple / precise / lookup / predicate) and a limit implementation (AIMD, Vegas, Gradient, Gradient2, Fixed, Settable, windowed) driven by a seeded history: every in-flight sample equals the ledger count at the admission decision, limit / partition gauges equal the enforced values, every OnSample emits exactly one rtt, one in-flight and (iff drop) one dropped sample; or (b) the real go-metrics or datadog registry inside the bubble (fresh go-metrics registry; real statsd client over an in-memory writer): seeded sequences of Register*, AddSample, Start, Stop (repeated, out of order), sleeps of k x pollFrequency so that Stop lands on a tick, under a seeded schedule that includes the poller goroutine; " +
 			"oracle (b): each sample reaches the backend metric of the right kind under prefix+id; gauge suppliers are called only between Start and the return of Stop, at most once per tick and gauge (two Starts must not double the rate) and at least once per two ticks; Start / Stop return; nothing polls after the final Stop; " +
 			"non-trivial = (a) at least one refusal and one drop sample, (b) a Stop or second Start happened while the poller was live; distinct = distinct event hashes / tapes",
@@ -36,7 +37,9 @@ func init() {
 }
 
 func runC20(r *Run) {
-	switch r.T.Pick([]int{4, 3, 3}, "part") {
+	switch r.T.Pick([]int{4, 3, 3, 2}, "part") {
+	case 3:
+		runC20ConcurrentSamples(r)
 	case 0:
 		runC20Recording(r)
 	case 1:
@@ -651,4 +654,86 @@ func lifeString(life []*lifeEv) string {
 		out += fmt.Sprintf("[%s %d..%d] ", k, e.call, e.ret)
 	}
 	return out
+}
+
+// runC20ConcurrentSamples: admission decisions taken concurrently on a simple / precise strategy
+// (directly, or through a DefaultLimiter) with a recording listener. The in-flight sample emitted
+// by each TryAcquire must be the count that decision was taken on, i.e. the token's InFlightCount().
+func runC20ConcurrentSamples(r *Run) {
+	t := r.T
+	kind := []string{"simple", "precise"}[t.Intn(2, "strategy")]
+	L := 1 + t.Intn(4, "limit")
+	s := r.NewSched()
+	lastByTask := map[int]float64{}
+	seenByTask := map[int]int{}
+	reg := &RecRegistry{}
+	reg.OnSample = func(st *RecStream, v float64, tags []string) {
+		if st.ID != core.MetricInFlight {
+			return
+		}
+		if tk := s.lookup(goid()); tk != nil {
+			lastByTask[tk.ID] = v
+			seenByTask[tk.ID]++
+		}
+	}
+	var strat core.Strategy
+	if kind == "simple" {
+		strat = strategy.NewSimpleStrategyWithMetricRegistry(L, reg)
+	} else {
+		strat = strategy.NewPreciseStrategyWithMetricRegistry(L, reg)
+	}
+	nTasks := 2 + t.Intn(3, "tasks")
+	r.Mixf("C20a concurrent samples strategy=%s L=%d tasks=%d", kind, L, nTasks)
+	overlap := false
+	for i := 0; i < nTasks; i++ {
+		rounds := 1 + t.Intn(4, "rounds")
+		hold := t.Intn(2, "hold") == 1
+		s.Go("caller", func(tk *Task) {
+			var held []core.StrategyToken
+			for k := 0; k < rounds; k++ {
+				tk.Begin("TryAcquire", nil)
+				before := seenByTask[tk.ID]
+				tok, ok := strat.TryAcquire(bg)
+				tk.End(ok)
+				if seenByTask[tk.ID] != before+1 {
+					s.Fail("inflight-metric-missing", kind+"/concurrent", "TryAcquire (granted=%v) emitted %d in-flight samples, expected exactly one", ok, seenByTask[tk.ID]-before)
+					return
+				}
+				if got := lastByTask[tk.ID]; got != float64(tok.InFlightCount()) {
+					s.Fail("inflight-metric-wrong", kind+"/concurrent", "a TryAcquire (granted=%v) decided on an in-flight count of %d (its token's InFlightCount) but sampled %v: the metric was re-read after other callers had moved the counter", ok, tok.InFlightCount(), got)
+					return
+				}
+				if ok {
+					if hold {
+						held = append(held, tok)
+					} else {
+						tk.Begin("Release", nil)
+						tok.Release()
+						tk.End(nil)
+					}
+				}
+			}
+			for _, tok := range held {
+				tk.Begin("Release", nil)
+				tok.Release()
+				tk.End(nil)
+			}
+		})
+	}
+	s.OnQuiescent = func() {
+		in := 0
+		for _, tk := range s.tasks {
+			if tk.MidOp() {
+				in++
+			}
+		}
+		if in >= 2 {
+			overlap = true
+		}
+	}
+	s.Run()
+	if overlap {
+		r.Nontrivial = true
+		r.Probe("decisions_overlapped")
+	}
 }
